@@ -495,12 +495,18 @@ func (c *Chain) SendRawTransaction(tx *wire.MsgTx, allowHighFees bool) (*chainha
 	var err error
 	if c.SendAnswer != nil {
 		err = c.SendAnswer(tx)
+	} else if _, known := c.mempool[h]; known {
+		// what a real backend answers to a re-broadcast
+		err = chain.ErrTxAlreadyInMempool
 	}
 	ans := "accepted"
 	if err != nil {
 		ans = err.Error()
 	}
 	c.Sends = append(c.Sends, SendCall{Hash: h, Answer: ans})
+	if errors.Is(err, chain.ErrTxAlreadyInMempool) {
+		c.mempool[h] = tx
+	}
 	if err != nil {
 		return nil, err
 	}
